@@ -10,7 +10,7 @@ import QipVerif.Model.Grid
      `<chan>` = `n` | `b:0` | `b:1` | `b:1:<g>` | `a:<g>:<g>`
 * `slices t=<g> rows=<g>!<g>…`                    → `ok dt:c,c,…;dt:c,c,…`
 * `step tl=<g> cs=<g> t=r`                        → `ok v`
-* `header inctime=0|1 labels=<codes>;<codes>…`    → `ok <codes>`   (codes: `.`-separated code points)
+* `header inctime=0|1 [hdr=0] labels=<codes>;<codes>…` → `ok <codes>` | `none` (codes: `.`-separated code points; hdr=0: `np.savetxt(header=…)` as found, no line for an empty header)
 * `read inctime=0|1 line=<codes>`                 → `ok <codes>;<codes>…`
 * `splinedeg n=N`                                   → `ok d` | `none`
 * `readshape inctime=0|1 rows=R n=N`              → `ok len,len,…` (`x` = not an array)
@@ -73,7 +73,10 @@ def step (line : String) : String :=
     | _, _, _ => "bad-op"
   | some "header" =>
     match fNat? fs "inctime", (fStr? fs "labels").bind (fun s => (s.splitOn ";").mapM codes?) with
-    | some it, some labels => "ok " ++ showCodes (headerLine 35 32 10 59 (it = 1) labels)
+    | some it, some labels =>
+      match headerLineV (fNat? fs "hdr" != some 0) 35 32 10 59 (it = 1) labels with
+      | some l => "ok " ++ showCodes l
+      | none => "none"
     | _, _ => "bad-op"
   | some "read" =>
     match fNat? fs "inctime", (fStr? fs "line").bind codes? with
